@@ -267,8 +267,19 @@ func (p Proxy) ServeHTTP(w http.ResponseWriter, r *http.Request) (int, error) {
 		//   The call to proxy.ServeHTTP can theoretically panic.
 		//   To prevent host.Conns from getting out-of-sync we thus have to
 		//   make sure that it's _always_ correctly decremented afterwards.
+		//
+		// Select() only checked that the host was not full at that moment;
+		// other requests may have been counted since. Reserve our slot first
+		// and give it back if that took the host over max_conns.
+		if n := atomic.AddInt64(&host.Conns, 1); host.MaxConns > 0 && n > host.MaxConns {
+			atomic.AddInt64(&host.Conns, -1)
+			backendErr = errors.New("upstream host '" + host.Name + "' is at max_conns")
+			if !keepRetrying(backendErr) {
+				break
+			}
+			continue
+		}
 		func() {
-			atomic.AddInt64(&host.Conns, 1)
 			defer atomic.AddInt64(&host.Conns, -1)
 			backendErr = proxy.ServeHTTP(w, outreq, downHeaderUpdateFn)
 		}()
